@@ -552,17 +552,36 @@ func runC13(r *Run, verifDir string) {
 			}
 		}
 	})
+	// idiom B: scan the client's own list from index 0 and adopt the first entry the server lists
+	scanOwn := false
+	for _, st := range stores {
+		if ia, ok := st.Val.(*ssa.IndexAddr); ok && isSupportedVersions(ia.X) {
+			if _, isConst := ia.Index.(*ssa.Const); !isConst {
+				scanOwn = true
+			}
+		}
+	}
 	switch {
 	case positional:
 		r.Bad("C13.N2", "kmipclient.Client.negotiateVersion/selection", nv.Pos(), "the adopted version is picked from the server's list by a fixed position: for an unordered or foreign list no fixed position is the highest common version")
 	case maxIdiom:
 		r.OK("C13.N2", "kmipclient.Client.negotiateVersion/selection", nv.Pos(), "a candidate replaces the current best only when CompareVersions(candidate, best) > 0")
+	case scanOwn:
+		if why := c13ClientListDescending(p); why == "" {
+			r.OK("C13.N2", "kmipclient.Client.negotiateVersion/selection", nv.Pos(), "the client's own list is scanned in order and is kept strictly descending (default literal and WithKmipVersions)")
+		} else {
+			r.Bad("C13.N2", "kmipclient.Client.negotiateVersion/selection", nv.Pos(), "the first common entry of the client's own list is adopted, which is the highest only if that list is strictly descending — but %s", why)
+		}
 	default:
 		r.Unk("C13.N2", "kmipclient.Client.negotiateVersion/selection", nv.Pos(), "selection idiom not recognised (expected: keep the greater by ttlv.CompareVersions(..) > 0, or scan the client's own descending list)")
 	}
 	// N6: the discovery store is dominated by a non-nil test of the chosen candidate
 	for i, st := range stores {
 		if _, isG := st.Val.(*ssa.Global); isG {
+			continue
+		}
+		if _, isElem := st.Val.(*ssa.IndexAddr); isElem {
+			r.OK("C13.N6", fmt.Sprintf("kmipclient.Client.negotiateVersion/none-common#%d", i+1), st.Pos(), "the stored value is the address of a list element found in the loop: never nil; the loop falling through returns an error")
 			continue
 		}
 		key := fmt.Sprintf("kmipclient.Client.negotiateVersion/none-common#%d", i+1)
@@ -724,4 +743,92 @@ func c12ServerControlled(p *Program, v ssa.Value) bool {
 		}
 	}
 	return false
+}
+
+// c13ClientListDescending: "" when the client's configured list is strictly descending by construction.
+func c13ClientListDescending(p *Program) string {
+	pk := p.Pkg("kmipclient")
+	// default literal
+	if cl, _ := findPkgVarLit(pk, "supportedVersions"); cl != nil {
+		prev := int64(1 << 40)
+		root := p.Pkg("")
+		for _, el := range cl.Elts {
+			name := types.ExprString(el)
+			name = strings.TrimPrefix(name, "kmip.")
+			obj := root.Types.Scope().Lookup(name)
+			if obj == nil || !strings.HasPrefix(name, "V") {
+				return "the default version list is not a list of kmip.Vx_y values"
+			}
+			var maj, min int64
+			fmt.Sscanf(name, "V%d_%d", &maj, &min)
+			cur := maj*100 + min
+			if cur >= prev {
+				return "the default version list is not strictly descending"
+			}
+			prev = cur
+		}
+	} else {
+		return "the default version list was not found"
+	}
+	// WithKmipVersions: sort the accumulated field with a swapped comparator, then compact it
+	var cl *ssa.Function
+	for _, fn := range pkgFuncs(p, "kmipclient") {
+		if fnKey(fn) == "kmipclient.WithKmipVersions$1" {
+			cl = fn
+		}
+	}
+	if cl == nil {
+		return "WithKmipVersions was not found"
+	}
+	isField := func(v ssa.Value) bool {
+		u, ok := v.(*ssa.UnOp)
+		if !ok {
+			return false
+		}
+		_, fld, ok := fieldAddrOf(u.X)
+		return ok && fld.Name() == "supportedVersions"
+	}
+	sortsField, swapped, compacts := false, false, false
+	allInstrs(cl, func(in ssa.Instruction) {
+		c, ok := in.(*ssa.Call)
+		if !ok {
+			return
+		}
+		id := callID(&c.Call)
+		if id.pkg == "slices" && id.name == "SortFunc" {
+			if isField(c.Call.Args[0]) {
+				sortsField = true
+			}
+			var cmpFn *ssa.Function
+			switch f := c.Call.Args[1].(type) {
+			case *ssa.MakeClosure:
+				cmpFn, _ = f.Fn.(*ssa.Function)
+			case *ssa.Function:
+				cmpFn = f
+			}
+			if cmpFn != nil && len(cmpFn.Params) == 2 {
+				allInstrs(cmpFn, func(in2 ssa.Instruction) {
+					if c2, ok := in2.(*ssa.Call); ok {
+						if f := c2.Call.StaticCallee(); f != nil && f.Origin() != nil && f.Origin().Name() == "CompareVersions" {
+							if c2.Call.Args[0] == ssa.Value(cmpFn.Params[1]) && c2.Call.Args[1] == ssa.Value(cmpFn.Params[0]) {
+								swapped = true
+							}
+						}
+					}
+				})
+			}
+		}
+		if id.pkg == "slices" && id.name == "Compact" && isField(c.Call.Args[0]) {
+			compacts = true
+		}
+	})
+	switch {
+	case !sortsField:
+		return "WithKmipVersions does not sort the whole accumulated list (only the new versions are sorted, so two options can leave it unordered)"
+	case !swapped:
+		return "WithKmipVersions does not sort in descending order"
+	case !compacts:
+		return "WithKmipVersions does not remove duplicates from the accumulated list"
+	}
+	return ""
 }
